@@ -108,6 +108,7 @@ def progs_strata(tier, corpus_quick=False, want=None):
     st.append(("F", lambda: S.feat_cases(tier), S.n_feat_cases(tier)))
     st.append(("L", lambda: S.line_text_cases(tier), S.n_line_text_cases(tier)))
     st.append(("Ld", lambda: S.line_text_def_cases(tier), S.n_line_text_def_cases(tier)))
+    st.append(("Lx", lambda: S.line_dead_cases(tier), S.n_line_dead_cases(tier)))
     st.append(("R", S.repo_corpus_cases, None))
     if tier == "thorough":
         st.append(("Pd2", lambda: S.with_modes(S.prog_Pd_expr2()), S.n_prog_Pd_expr2()))
